@@ -504,3 +504,15 @@ func H_C01_minmax_ranges_cover_after_update_and_merge() {
 	}
 	H_C04_merged_range_keeps_what_sources_kept()
 }
+
+// The index-coverage leg of C01 across merges (details are C11/C17/C18): the entry sets a merged
+// file's filters are built from hold exactly the rows stored in each block and in the file, also
+// when the tokenizer returns views of the row bytes it was handed.
+//
+//vp:override (*bs.bloomEntrySets).indexRow=vpIndexRowRec
+//vp:override (*bs.bloomEntrySets).buildFilters=vpBuildFiltersRec
+//vp:override bs.encodeFilterSection=vpEncodeSectionStub
+//vp:override bs.parseFilterSection=vpParseSectionOK
+//vp:maxsteps 400000
+//vp:bounds as H_C11_merge_preserves_rows_and_describes_its_output
+func H_C01_merged_files_index_the_rows_they_hold() { vpMergedFileBody() }
